@@ -38,6 +38,10 @@ TABLE = [
     C(16, 'sequence', n=3, ev=[0, 0, 1]),
     C(17, 'sequence', n=4, ev=[0, 0, 0, 1], resetOC=True, disableOC=False),
     C(18, 'sequence', n=3, ev=[0, 1, 0], resetOC=False, disableOC=False),
+    # count_interval written with the other sign: the direction decides which way the counter moves
+    C(19, 'counter', dir='down', ival=-2, start=4, goal=0, resetOC=False, disableOC=True),
+    C(20, 'counter', dir='up', ival=-1, goal=2, resetOC=True, disableOC=False),
+    C(21, 'counter', dir='down', ival=-1, start=2, goal=0, window=2, unit=50),
 ]
 
 
